@@ -152,6 +152,14 @@ def run(rep):
         rep.check(has_assert == exp_assert, 'C09.assertions', key, where,
                   f'[{desc}] layout assertions {"present" if has_assert else "absent"}; expected {"present" if exp_assert else "absent"}', ok_detail=f'assertions={has_assert}')
     rep.floor('truth-table rows evaluated', n_rows, 64)
+    # the `host_shareable` atom: membership of this type's handle in the closure set of all module-scope variable types
+    sets = []
+    for en in entries:
+        E.walk(en['cond'], lambda x: sets.append(x[1]) if x[0] == 'mcall' and x[2] == 'contains' and x[3] == [('tf', elem, 0)] and not any(x[1] == s_ for s_ in sets) else None)
+    rep.check(len(sets) == 1, 'C09.host-shareable-atom', 'one-set', where, f'the derive guards consult {len(sets)} different sets for "host-shareable"', ok_detail='one closure set')
+    if len(sets) == 1:
+        from rules.c08 import closure_discipline
+        closure_discipline(ogp, rep, 'C09.host-shareable-atom', q, sets[0], st[1][1], where)
     # ---- non-interference --------------------------------------------------------------------------------------------------------
     tops = [tq for tq in ogp.summaries if any(c[0] == tq and c[1] == q for c in ogp.it.inline_calls) and 'WriteOptions' in str([p['ty'] for p in ogp.crate.fns[tq]['params']])]
     rep.floor('top-level function handing the options to the struct section', len(tops), 1)
